@@ -185,7 +185,7 @@ func (w *Witness) Update(ctx context.Context, logID string, oldSize uint64, next
 		// checkpoint as trust-on-first-use (TOFU).
 		if status.Code(err) == codes.NotFound {
 			// Store a witness cosigned version of the checkpoint.
-			signed, err := w.signChkpt(nextNote)
+			signed, err := w.signChkpt(nextNote, logID)
 			if err != nil {
 				return nil, fmt.Errorf("couldn't sign input checkpoint: %v", err)
 			}
@@ -239,7 +239,7 @@ func (w *Witness) Update(ctx context.Context, logID string, oldSize uint64, next
 			counterInvalidConsistency.Inc(logID)
 			return prevRaw, ErrInvalidProof
 		}
-		signed, err := w.signChkpt(nextNote)
+		signed, err := w.signChkpt(nextNote, logID)
 		if err != nil {
 			return nil, fmt.Errorf("couldn't sign input checkpoint: %v", err)
 		}
@@ -258,7 +258,7 @@ func (w *Witness) Update(ctx context.Context, logID string, oldSize uint64, next
 		return prevRaw, ErrInvalidProof
 	}
 	// If the consistency proof is good we store the witness cosigned nextRaw.
-	signed, err := w.signChkpt(nextNote)
+	signed, err := w.signChkpt(nextNote, logID)
 	if err != nil {
 		return nil, fmt.Errorf("couldn't sign input checkpoint: %v", err)
 	}
@@ -270,10 +270,16 @@ func (w *Witness) Update(ctx context.Context, logID string, oldSize uint64, next
 }
 
 // signChkpt adds the witness' signature to a checkpoint.
-func (w *Witness) signChkpt(n *note.Note) ([]byte, error) {
+func (w *Witness) signChkpt(n *note.Note, logID string) ([]byte, error) {
 	cosigned, err := note.Sign(n, w.Signers...)
 	if err != nil {
 		return nil, fmt.Errorf("couldn't sign checkpoint: %v", err)
+	}
+	// The cosigned checkpoint is what every later update is verified against, so it must
+	// itself be readable: adding our signatures to a note that already carries close to the
+	// maximum number of signature lines would otherwise wedge this log forever.
+	if _, _, err := w.parse(cosigned, logID); err != nil {
+		return nil, fmt.Errorf("cosigned checkpoint would not be readable: %v", err)
 	}
 	return cosigned, nil
 }
